@@ -13,7 +13,7 @@ fn token_spellings() -> Vec<&'static str> {
         "DIM", "LET", "PRINT", "INPUT", "GOTO", "GOSUB", "RETURN", "IF", "THEN", "ELSE", "AND", "OR",
         "NOT", "END", "STOP", "FOR", "TO", "STEP", "NEXT", "READ", "RESTORE", "DEF", "?", ":", ";",
         ",", "(", ")", "+", "-", "*", "/", "^", "=", "<>", "<=", ">=", "<", ">", "X", "X1", "A$",
-        "SCORE", "TOTAL", "FNA", "7", "12", "1.5", ".5", "007", "\"a B\"", "\"\"", "\"é\"",
+        "SCORE", "TOTAL", "FNA", "7", "12", "1.5", ".5", "007", "\"a B\"", "\"\"", "\"é\"", "\"C:\\DOS\\RUN\"", "\"a\tb\"", "\"e\u{301}\u{200b}'x\"",
     ]
 }
 
